@@ -97,9 +97,8 @@ def run(tier='quick', seed=0):
     names = sorted(table)
     ctx = mp.get_context('fork')
     obs = []
-    with ctx.Pool(processes=min(16, os.cpu_count() or 4), maxtasksperchild=4) as pool:
-        for r in pool.imap_unordered(misuse_task, [names[i:i + 20] for i in range(0, len(names), 20)], chunksize=1):
-            obs.extend(r)
+    from ..par import collect
+    obs.extend(collect(misuse_task, [names[i:i + 20] for i in range(0, len(names), 20)], 1, 600, lambda t, why: dict(oid=f'C19/worker/{t[0]}', status='undecided', detail=why, paths=0, name=t[0], cname=None)))
     R0 = report.Run('C19', tier, seed)     # only for known matching
     extra = []
     for o in sorted(obs, key=lambda o: o['oid']):
